@@ -153,7 +153,7 @@ def main(tier, replay=None):
             builder = cdrive.CBuilder(scratch, cflags=("-O1",))
             for k in range(n):
                 rng = random.Random("c15/%d/%d" % (seed, k))
-                base, _ = gen.rand_case(seed, 200000 + k, max_bits=rng.choice([60, 300]), max_fields=5,
+                base, _ = gen.rand_case(seed, 200000 + k, max_bits=rng.choice([60, 300]), max_fields=5, reuse_names=0,
                                         p_ext=0.0 if k % 3 == 0 else 0.3)
                 plain = stylize(base, random.Random("c15s/%d/%d" % (seed, k)))
                 if plain is None:
@@ -234,6 +234,48 @@ def main(tier, replay=None):
                 if lib is not None:
                     cwire.drive_case(c, lib, worker, want=("enc", "dec"))
             pywire.validate_and_decide(rep, wtraces, count_events=("CEncode", "CDecode"))
+            # one parsed schema rendered for c, then go, then py in the same process (the library use of parse() /
+            # render()): every language still follows its own scheme
+            for k in range(0, n, 3):
+                rng = random.Random("c15/%d/%d" % (seed, k))
+                base, _ = gen.rand_case(seed, 200000 + k, max_bits=rng.choice([60, 300]), max_fields=5, reuse_names=0,
+                                        p_ext=0.0 if k % 3 == 0 else 0.3)
+                pw = [rng.choice(POOL) for _ in range(rng.choice([1, 2]))]
+                pr = stylize(base, random.Random("c15s/%d/%d" % (seed, k)), prefix_words=pw if k % 2 else None)
+                if pr is None:
+                    continue
+                d = scratch.sub()
+                main_path, paths = render.write_program(pr, d)
+                proto, outcome = P.observe_parse(main_path)
+                obs = [outcome]
+                if proto is not None:
+                    try:
+                        common.use_repo()
+                        from bitproto.renderer import render as _render
+                        order = ["c", "go", "py"] if k % 2 == 0 else ["py", "c", "go"]
+                        for lang in order:
+                            _render(proto, lang, outdir=d)
+                        for f in pr["order"]:
+                            if f != pr["main"]:
+                                for lang in ("c", "go", "py"):
+                                    drive.compile_inproc(paths[f], lang, d)
+                        ids, _fields = c_ids(d, pr["main"] + "_bp", None)
+                        obs.append({"ev": "Declared", "lang": "c", "file": pr["main"], "ids": ids, "stdmode": True})
+                        obs.append({"ev": "Declared", "lang": "go", "file": pr["main"], "ids": go_ids(d, pr["main"] + "_bp"),
+                                    "stdmode": True})
+                        try:
+                            mod = drive.load_py(d, pr["main"] + "_bp")
+                            obs.append({"ev": "Declared", "lang": "py", "file": pr["main"], "ids": py_ids(mod), "stdmode": True})
+                        finally:
+                            drive.unload_py(d)
+                    except Exception as exc:
+                        obs.append({"ev": "Raise", "what": "%s@%s@same-proto" % drive.exc_signature(exc)})
+                tr = P.spec_program(pr)
+                tr["id"] = "c15-sameproto-%d-%d" % (seed, k)
+                tr["obs"] = obs
+                traces.append(tr)
+                metas.append(("one-parse-%s" % ("prefix" if k % 2 else "plain"), False, pr))
+                rep.feature("one-parse-three-languages")
             # schema files with unusual names: the output file is <base name>_bp<ext>, only the last dotted part of
             # the name being its extension
             odd_names = ["zoo.v2.bitproto", "sensor.rev3.final.bitproto", "a-b.bitproto", "UPPER.bitproto", "noext",
